@@ -187,10 +187,25 @@ def parse_render(s):
     return d
 
 
-def mk_eval_cases(g, n, prefix, funcs=0.0, acc=0.0, jnum=0.15, opaque=0.0, filter_heavy=0.5, maxsteps=4):
+def mk_eval_cases(g, n, prefix, funcs=0.0, acc=0.0, jnum=0.15, opaque=0.0, filter_heavy=0.5, maxsteps=4, families=0.2):
     cases = []
     for i in range(n):
         jn = g.r.random() < jnum
+        k = g.r.random()
+        if k < families * 0.75:
+            kinds = None
+            if opaque and g.r.random() < 0.5:
+                kinds = sorted(kk for kk, (_, _, se) in core.KINDS.items() if se)
+            doc, exprs = gens.refs_family(g, jn and not kinds, kinds)
+            tail = g.r.choice([b'', b'', b'.k', b'.u', b'[0]', b'.*'])
+            path = b'$.list[?(' + g.r.choice(exprs) + b')]' + tail
+            cases.append(Case('%s%d' % (prefix, i), path, [doc], [], [], acc=(g.r.random() < acc), meta={'nsteps': 2, 'family': 'refs'}))
+            continue
+        if k < families:
+            doc, steps = gens.nested_arrays_family(g)
+            cases.append(Case('%s%d' % (prefix, i), gens.render_path(steps), [doc], [], [], acc=(g.r.random() < acc),
+                              meta={'nsteps': len(steps), 'family': 'nested-arrays'}))
+            continue
         doc = g.filter_doc(jn, opaque) if g.r.random() < filter_heavy else g.doc(3, jn, opaque)
         steps = g.gen_path(doc, maxsteps, funcs)
         path = gens.render_path(steps)
